@@ -1118,7 +1118,7 @@ class Namespace:
     def call_len(self, tr, node):
         fi = self.funcs.get("M:__len__")
         if fi is None:
-            tr.fail(node, "len(self) used before __len__ is translated")
+            tr.fail(node, "uses len(self), but __len__ could not be translated (see the problem reported for __len__)")
         return ("call", fi.lean, [("var", "self")])
 
     def inline_is_reversed(self, tr, node, env):
@@ -1222,6 +1222,8 @@ class Namespace:
             return Val("kwargs"), False
         key = "M:" + name
         if name == "__getitem__" or key not in self.funcs:
+            if name in METHOD_NAMES and name != "__getitem__":
+                tr.fail(node, f"uses self.{name}, which could not be translated (see the problem reported for it)")
             tr.fail(node, f"call of self.{name} is outside the fragment (not a translated method)")
         fi = self.funcs[key]
         is_prop = name in self.properties
@@ -1251,7 +1253,7 @@ class Namespace:
     def call_ctor(self, tr, node, env):
         fi = self.funcs.get("M:__init__")
         if fi is None:
-            tr.fail(node, "constructor used before __init__ is translated")
+            tr.fail(node, "uses the constructor, but __init__ could not be translated (see the problem reported for __init__)")
         if node.args:
             tr.fail(node, "positional constructor arguments")
         extra = None
